@@ -150,6 +150,8 @@ impl<'a, W: AsyncWrite + Unpin> QueryCommandHandler<'a, W> {
                 } = self.command
                 {
                     (None, None) // Offset and limit already applied in flow merger for ordered queries
+                } else if let Command::Query { aggs: Some(_), .. } = self.command {
+                    (None, None) // Offset and limit already applied in AggregateStreamMerger (after merging groups)
                 } else {
                     (limit_value, offset_value) // Apply limit and offset in response writer for unordered queries
                 };
